@@ -329,6 +329,7 @@ func contains(xs []int, k int) bool {
 
 func (x *gen) round5() {
 	g, r := x.g, x.g.R
+	defer x.reentrantCmp()
 	// every shape up to 4 (5) nodes, every key, every body
 	maxN := g.Scale(4, 5)
 	for n := 1; n <= maxN; n++ {
@@ -345,6 +346,9 @@ func (x *gen) round5() {
 		if r.Chance(1, 4) {
 			cmps = tr.Pick(r, []string{"r", "a", "t", "A", "D", "x", "X", "h"})
 		}
+		if r.Chance(1, 4) {
+			cmps = "q" + cmps // the comparator reads the tree during Tree.Cursor / Tree.Get
+		}
 		var b string
 		if pat == "shrink" {
 			b, _ = shrinkHistory(r, cmps, i)
@@ -353,6 +357,31 @@ func (x *gen) round5() {
 		}
 		t := build(cmps, b, "")
 		x.reentrant(cmps, b, dump(t), t.Len() <= 6, "history-"+pat)
+	}
+}
+
+// reentrantCmp: trees under comparators that read their own tree while Tree.Cursor / Tree.Get run: lookups
+// of every key and of its absent neighbour, random walks (re-anchoring by Tree.Cursor among the moves)
+func (x *gen) reentrantCmp() {
+	g, r := x.g, x.g.R
+	betas := []int{0, 1, 250, 500, 999, 1000}
+	patterns := []string{"asc", "desc", "zigzag", "bulk", "churn", "mix"}
+	for i := 0; i < g.Scale(80, 1600); i++ {
+		cmps := "q" + tr.Pick(r, []string{"n", "n", "r", "a", "t", "A", "D", "x", "h", "m7", "M5"})
+		b := history(r, patterns[i%len(patterns)], tr.Pick(r, betas), 2+r.Intn(40))
+		t := build(cmps, b, "")
+		shape := dump(t)
+		keys := inorderKeys(t)
+		var ops []string
+		for _, k := range keys {
+			ks := strconv.Itoa(k)
+			ops = append(ops, "K0="+ks, "G0="+ks, "K1="+strconv.Itoa(k+1), "G1="+strconv.Itoa(k+1), "n0", "K0="+ks, "p0")
+		}
+		ops = append(ops, "O0", "m0", "N0")
+		x.emit(cmps, b, shape, ops, "reentrant", "reentrant-comparator")
+		for j := 0; j < 3; j++ {
+			x.emit(cmps, b, shape, x.randomWalk(keys, 10+r.Intn(20)), "reentrant", "reentrant-comparator", "random-walk")
+		}
 	}
 }
 
